@@ -60,8 +60,26 @@ func funcIs(fn *types.Func, pkgPath, recv, name string) bool {
 	if recv == "*" {
 		return true
 	}
-	return recvTypeName(fn) == recv
+	if recvTypeName(fn) == recv {
+		return true
+	}
+	// a method turned into a package function of the same name (the receiver became a parameter) is the same anchor
+	if recv == "" || recvTypeName(fn) != "" {
+		return false
+	}
+	if methodlessAnchor[pkgPath+"."+name] {
+		return true
+	}
+	if tn, ok := fn.Pkg().Scope().Lookup(recv).(*types.TypeName); ok {
+		if o, _, _ := types.LookupFieldOrMethod(types.NewPointer(tn.Type()), true, fn.Pkg(), name); o == nil {
+			return true
+		}
+	}
+	return false
 }
+
+// methodlessAnchor records the anchors (pkg.name) that LookupFunc resolved to a package function although a method was asked for.
+var methodlessAnchor = map[string]bool{}
 
 // fqn gives a stable human name: pkg.(Recv).Name
 func fqn(fn *types.Func) string {
